@@ -100,8 +100,8 @@ Theorem C09_substring_refines_bmp : forall u args, bmp_clean u -> zlen u < 2 ^ 6
 Proof. exact substring_refines_bmp. Qed.
 Print Assumptions C09_substring_refines_bmp.
 
-(* substr: as long as the length argument stays below 2^62 (beyond that start+length wraps: refuted below) *)
-Theorem C09_substr_refines_bmp : forall u args, bmp_clean u -> zlen u < 2 ^ 62 -> substr_len_ok args ->
+(* substr: every start and every length argument, Infinity and 2^63 included (after 27b5748) *)
+Theorem C09_substr_refines_bmp : forall u args, bmp_clean u -> zlen u < 2 ^ 62 ->
   m_substr (dec16 u) args =
   match to_integer (arg_at args 0), opt_ext args 1 with
   | Some st, Some ln => Some (VStr (substr u st ln))
@@ -110,12 +110,46 @@ Theorem C09_substr_refines_bmp : forall u args, bmp_clean u -> zlen u < 2 ^ 62 -
 Proof. exact substr_refines_bmp. Qed.
 Print Assumptions C09_substr_refines_bmp.
 
-(* charAt / charCodeAt on a String object whose text has no surrogate and no U+FFFD *)
+(* charAt / charCodeAt on a text that has no surrogate and no U+FFFD, every position argument *)
 Theorem C09_charAt_refines_bmp : forall u a code, bmp_clean u -> ~ In 0xFFFD u -> zlen u < 2 ^ 62 ->
-  option_map (fun i => m_charAt (TStringObj (dec16 u)) i code) (int64_of a) =
+  option_map (fun i => m_charAt (dec16 u) i code) (int64_of a) =
   option_map (fun p => if code then charCodeAt u p else VStr (charAt u p)) (to_integer a).
 Proof. exact charAt_refines_bmp. Qed.
 Print Assumptions C09_charAt_refines_bmp.
+
+(* charAt / charCodeAt are generic (after 8a02cb3): whole call, every receiver but undefined *)
+Theorem C09_charAt_generic : forall m r args u,
+  (m = MCharAt \/ m = MCharCodeAt) -> r <> RUndef -> this_string r = Some u ->
+  bmp_clean u -> ~ In 0xFFFD u -> zlen u < 2 ^ 62 ->
+  call_model m r args = call_spec m r args.
+Proof. exact charAt_call_refines. Qed.
+Print Assumptions C09_charAt_generic.
+
+(* lastIndexOf on ASCII strings: every position except NaN and -Infinity (open finding
+   C09-lastindexof-position), 2^63 and beyond included (after 27b5748) *)
+Theorem C09_lastIndexOf_refines_ascii : forall s t nargs a1 b, ascii s -> ascii t -> zlen s < 2 ^ 62 ->
+  (2 <= nargs)%nat -> a1 <> AUndef -> to_number a1 = Some b ->
+  is_nan_bits b = false -> to_integer_bits b <> NInf ->
+  m_lastIndexOf s t nargs a1 = Some (VInt (lastIndexOf s t (to_integer_bits b))).
+Proof. exact lastIndexOf_refines_ascii. Qed.
+Print Assumptions C09_lastIndexOf_refines_ascii.
+
+Theorem C09_lastIndexOf_refines_ascii_absent : forall s t nargs a1, ascii s -> ascii t ->
+  (nargs < 2)%nat \/ a1 = AUndef ->
+  m_lastIndexOf s t nargs a1 = Some (VInt (lastIndexOf s t PInf)).
+Proof. exact lastIndexOf_refines_ascii_absent. Qed.
+Print Assumptions C09_lastIndexOf_refines_ascii_absent.
+
+(* ToUint32 (split limit) and ToUint16 (fromCharCode) are the ES5 functions for every double (after 02e659b) *)
+Theorem C09_to_uint_exact : forall k a, go_uint k a = to_uint k a.
+Proof. exact go_uint_is_to_uint. Qed.
+Print Assumptions C09_to_uint_exact.
+
+(* only the canonical decimal text of an index below 2^32-1 is an index name of a string (after 4b90749) *)
+Theorem C09_index_name_canonical : forall p, 0 <= string_to_array_index p ->
+  int_text (string_to_array_index p) = p /\ string_to_array_index p < 4294967295.
+Proof. exact index_name_canonical. Qed.
+Print Assumptions C09_index_name_canonical.
 
 Theorem C09_trim_refines_bmp : forall u, bmp_clean u -> enc16 (m_trim (dec16 u)) = trim u.
 Proof. exact trim_refines_bmp. Qed.
@@ -215,11 +249,6 @@ Proof. exists [65533; 97], (n 0). vm_compute. discriminate. Qed.
 Print Assumptions C09_fffd_sentinel_refuted.
 
 (* receivers *)
-Theorem C09_charAt_receiver_refuted :    (* String.prototype.charAt.call(5, 0): Go panic instead of "5" *)
-  exists r p, call_model MCharAt r [p] = Some (VErr 9) /\ call_spec MCharAt r [p] = Some (VStr [53]).
-Proof. exists (RNumR 5), (n 0). vm_compute. split; reflexivity. Qed.
-Print Assumptions C09_charAt_receiver_refuted.
-
 Theorem C09_undefined_this_refuted :     (* String.prototype.trim.call(undefined) does not throw *)
   call_spec MTrim RUndef [] = Some (VErr 6) /\ call_model MTrim RUndef [] <> Some (VErr 6).
 Proof. vm_compute. split; [reflexivity|discriminate]. Qed.
@@ -243,27 +272,10 @@ Theorem C09_lastIndexOf_neginf_refuted : (* "aba".lastIndexOf("a", -Infinity): 2
 Proof. exists [97; 98; 97], [97]. vm_compute. split; reflexivity. Qed.
 Print Assumptions C09_lastIndexOf_neginf_refuted.
 
-Theorem C09_substr_wrap_refuted :        (* "abc".substr(1, Infinity): Go panic instead of "bc" *)
-  exists s, call_model MSubstr (RLit s) [n 1; ANum pinf_bits] = Some (VErr 9) /\
-            call_spec MSubstr (RLit s) [n 1; ANum pinf_bits] = Some (VStr [98; 99]).
-Proof. exists [97; 98; 99]. vm_compute. split; reflexivity. Qed.
-Print Assumptions C09_substr_wrap_refuted.
-
-Theorem C09_lastIndexOf_wrap_refuted :   (* "abc".lastIndexOf("c", 2^63): Go panic instead of 2 *)
-  exists s t, call_model MLastIndexOf (RLit s) [AStr t; n (2 ^ 63)] = Some (VErr 9) /\
-              call_spec MLastIndexOf (RLit s) [AStr t; n (2 ^ 63)] = Some (VInt 2).
-Proof. exists [97; 98; 99], [99]. vm_compute. split; reflexivity. Qed.
-Print Assumptions C09_lastIndexOf_wrap_refuted.
-
-Theorem C09_index_name_refuted :         (* "abc"["01"] is "b", not undefined *)
-  exists s p, call_model MIndex (RLit s) [AStr p] = Some (VStr [98]) /\ call_spec MIndex (RLit s) [AStr p] = Some VUndef.
-Proof. exists [97; 98; 99], [48; 49]. vm_compute. split; reflexivity. Qed.
-Print Assumptions C09_index_name_refuted.
-
 (* ---------- order of argument conversions ---------- *)
 
 (* otto converts the arguments in the ES5 step order for every method except the two early
-   returns refuted below; every argument list, every mix of primitive and effectful arguments *)
+   returns refuted below (and charAt / charCodeAt convert the position before this, also refuted); every argument list, every mix of primitive and effectful arguments *)
 Theorem C09_conversion_order : forall m this eargs, m <> MSplit -> m <> MLastIndexOf ->
   plan_model m this eargs = plan_spec m eargs.
 Proof. intros m this eargs H1 H2. destruct m; try reflexivity; congruence. Qed.
@@ -274,6 +286,14 @@ Theorem C09_lastIndexOf_order : forall this eargs, this <> [] ->
   (0%nat, KS) :: (if (length eargs <? 2)%nat || e_undef (earg_at eargs 1) then [] else [(1%nat, KN)]).
 Proof. intros this eargs H. destruct this; [congruence|]. cbn [plan_model is_nil]. now rewrite Bool.orb_false_r. Qed.
 Print Assumptions C09_lastIndexOf_order.
+
+Theorem C09_charAt_converts_position_first_refuted :   (* String.prototype.charAt.call(thisObject, posObject) *)
+  exists st, model_step st = Some (VStr [98], [3; 0]) /\ spec_step st = Some (VStr [98], [0; 3]).
+Proof.
+  exists (Some MCharAt, ERObj 0 [97; 98] false, [EObj 1 [] (encode_int_or_nan 1) false false]).
+  vm_compute. split; reflexivity.
+Qed.
+Print Assumptions C09_charAt_converts_position_first_refuted.
 
 Theorem C09_split_skips_separator_refuted :   (* "a,b".split(sepObject, 0): separator.toString not called *)
   exists st, model_step st = Some (VList [], []) /\ spec_step st = Some (VList [], [2]).
@@ -307,8 +327,15 @@ Qed.
 Example C09_scalars_hyp_met : scalars [97; 233; 26085; 65536; 1114111] /\
   enc16 [97; 233; 26085; 65536; 1114111] = [97; 233; 26085; 55296; 56320; 56319; 57343].
 Proof. split; [repeat (constructor; [reflexivity|]); constructor | reflexivity]. Qed.
-Example C09_substr_len_ok_met : substr_len_ok [n 1; n 5] /\ substr_len_ok [n 1] /\ substr_len_ok [n 1; ANum ninf_bits].
-Proof. vm_compute. repeat split. Qed.
+Example C09_charAt_generic_hyp_met : this_string (RNumR 5) = Some [53] /\ RNumR 5 <> RUndef /\
+  call_model MCharAt (RNumR 5) [n 0] = Some (VStr [53]).
+Proof. repeat split; discriminate. Qed.
+Example C09_lastIndexOf_hyp_met : to_number (n (2 ^ 63)) = Some (encode_int_or_nan (2 ^ 63)) /\
+  is_nan_bits (encode_int_or_nan (2 ^ 63)) = false /\ to_integer_bits (encode_int_or_nan (2 ^ 63)) <> NInf /\
+  call_model MLastIndexOf (RLit [97; 98; 99]) [AStr [99]; n (2 ^ 63)] = Some (VInt 2).
+Proof. vm_compute. repeat split; discriminate. Qed.
+Example C09_index_name_hyp_met : string_to_array_index [49; 50] = 12 /\ string_to_array_index [48; 49] = -1.
+Proof. vm_compute. split; reflexivity. Qed.
 Example C09_split_join_hyp_met : zlen [97; 44; 98] + 1 < 2 ^ 32 - 1 /\
   split [97; 44; 98] (Some [44]) (2 ^ 32 - 1) = [[97]; [98]] /\ join [44] [[97]; [98]] = [97; 44; 98].
 Proof. vm_compute. repeat split. Qed.
